@@ -387,6 +387,7 @@ def real_crash_scenario(nVar, k, c, idx=None, dtype=np.float64):
             fh.truncate(size_k + c)
         g = fio.FieldsIO.fromFile(path)
         res['nF'] = g.nFields
+        res.update(old_ok=False, nF2=-1, new_ok=False, old_ok2=False, times_ok=False, size_ok=False)
         res['old_ok'] = all(g.readField(j)[0] == recs[j][0] and np.array_equal(g.readField(j)[1], recs[j][1]) for j in range(k))
         if idx is not None:
             try:
@@ -396,6 +397,10 @@ def real_crash_scenario(nVar, k, c, idx=None, dtype=np.float64):
                 res['read_ok'] = (0 <= j < k) and t == recs[j][0] and np.array_equal(u, recs[j][1])
             except AssertionError:
                 res['read'] = 'rejected'
+            except Exception as e:  # e.g. reading past the end of the file: the index was accepted although no such record exists
+                res['read'] = 'returned'
+                res['read_ok'] = False
+                res['read_exception'] = f'{type(e).__name__}: {e}'
         g.addField(*recs[k + 1])
         res['nF2'] = g.nFields
         t, u = g.readField(k)
@@ -403,6 +408,12 @@ def real_crash_scenario(nVar, k, c, idx=None, dtype=np.float64):
         res['old_ok2'] = all(g.readField(j)[0] == recs[j][0] and np.array_equal(g.readField(j)[1], recs[j][1]) for j in range(k))
         res['times_ok'] = g.times == [r[0] for r in recs[:k]] + [recs[k + 1][0]]
         res['size_ok'] = os.path.getsize(path) == size_k + R
+    except Exception as e:
+        res['exception'] = f'{type(e).__name__}: {e}'
+        res.setdefault('nF', -1)
+        for key in ('old_ok', 'new_ok', 'old_ok2', 'times_ok', 'size_ok'):
+            res.setdefault(key, False)
+        res.setdefault('nF2', -1)
     finally:
         import shutil
 
@@ -496,7 +507,7 @@ def times_case(rep, k):
         F.length = SymInt(h + k * R + c)
         # nFields is symbolic; 'times' iterates range(nFields): make it concrete the way the solver allows (it must be k)
         nf = f.nFields
-        fio.FieldsIO.nFields = property(lambda self: k if bool(SymBool(I(nf) == k)) else None)
+        fio.FieldsIO.nFields = property(lambda self: k if bool(SymBool(I(nf) == k)) else 0)
         try:
             READS.clear()
             ts = f.times
@@ -526,39 +537,96 @@ NF_ORIG = fio.FieldsIO.__dict__['nFields']
 
 
 def overwrite_case(rep):
-    """initialize refuses an existing file unless ALLOW_OVERWRITE (executed on the symbolic file system; no quantifier left)"""
-    FS[0] = FSys()
-    c = Ctx()
-    Ctx.cur = c
-    try:
-        f = new_scalar(3)
-        F = FS[0].files['x.pysdc']
-        F.events.append(('w', I(f.hSize), z3.IntVal(32), 'record', None))
-        F.length = SymInt(I(f.hSize) + 32)
+    """initialize refuses ANY existing file unless ALLOW_OVERWRITE: the existing file has a symbolic length (it may be shorter than the header of the
+    new handler, hold records, or be empty) and the new handler a symbolic number of variables"""
+    ell, nVar = z3.Ints('ell nVar')
+    pre = [ell >= 0, nVar >= 1]
+
+    def fn(c):
+        for a in pre:
+            c.add(a)
+        FS[0] = FSys()
+        F = SymFile()
+        F.length = SymInt(ell)
+        F.events.append(('w', z3.IntVal(0), ell, 'existing content', None))
+        FS[0].files['x.pysdc'] = F
         g = fio.Scalar(np.float64, 'x.pysdc')
-        g.setHeader(nVar=3)
+        g.setHeader(nVar=SymInt(nVar))
         try:
             g.initialize()
             refused = False
         except FileExistsError:
             refused = True
-        rep.side('overwrite/refused-by-default', refused and FS[0].files['x.pysdc'] is F)
+        untouched = FS[0].files['x.pysdc'] is F and len(F.events) == 1
         fio.FieldsIO.ALLOW_OVERWRITE = True
         try:
-            g.initialize()
-            ok = FS[0].files['x.pysdc'] is not F
+            g2 = fio.Scalar(np.float64, 'x.pysdc')
+            g2.setHeader(nVar=SymInt(nVar))
+            g2.initialize()
+            replaced = FS[0].files['x.pysdc'] is not F
         finally:
             fio.FieldsIO.ALLOW_OVERWRITE = False
-        rep.side('overwrite/allowed-when-enabled', ok)
+        return dict(refused=refused, untouched=untouched, replaced=replaced)
+
+    paths = explore(fn)
+    rep.paths += len(paths)
+    for i, p in enumerate(paths):
+        r = p.result
+        ok = r['refused'] and r['untouched']
+        rep.ob(f'overwrite/path{i}:existing-file-refused-and-untouched', 'unsat' if ok else 'sat')
+        if not ok:
+            res, m = satisfiable(pre + list(p.pc), name=f'overwrite/path{i}:witness')
+            vals = {'ell': int(model_value(m, ell)), 'nVar': int(model_value(m, nVar))} if res == 'sat' else {'ell': 0, 'nVar': 1}
+            rep.replayed += 1
+            real = real_overwrite(vals['ell'], max(1, min(vals['nVar'], 50)))
+            if real:
+                rep.violation(f'{PID}/overwrite-protection', f'existing file of {vals["ell"]} bytes is overwritten by initialize() of a Scalar handler with nVar={vals["nVar"]} although ALLOW_OVERWRITE is off',
+                              {'task': ['overwrite'], **vals})
+            else:
+                rep.unreproduced(f'overwrite/path{i}', vals)
+        rep.side(f'overwrite/path{i}:allowed-when-enabled', r['replaced'])
+    rep.ob('overwrite:coverage', coverage_certificate(paths, pre, name='overwrite:coverage'))
+    # addField on a handler that was never initialised is rejected
+    c = Ctx()
+    Ctx.cur = c
+    try:
+        FS[0] = FSys()
         h = fio.Scalar(np.float64, 'y.pysdc')
         h.setHeader(nVar=2)
         try:
             h.addField(0.0, SymArr(2, np.float64, 'f'))
             rep.side('addField/requires-initialize', False)
-        except AssertionError:
+        except (AssertionError, FileNotFoundError):
             rep.side('addField/requires-initialize', True)
     finally:
         Ctx.cur = None
+
+
+def real_overwrite(ell, nVar):
+    """True if a real existing file of ell bytes is overwritten by initialize()"""
+    d = tempfile.mkdtemp(prefix='c16o_', dir='/dev/shm' if os.path.isdir('/dev/shm') else None)
+    path = os.path.join(d, 'x.pysdc')
+    shadowed = getattr(fio, 'open', None) is sym_open
+    if shadowed:
+        uninstall()
+    try:
+        content = bytes((i * 37 + 11) % 256 for i in range(ell))
+        with open(path, 'wb') as f:
+            f.write(content)
+        g = fio.Scalar(np.float64, path)
+        g.setHeader(nVar=nVar)
+        try:
+            g.initialize()
+        except FileExistsError:
+            pass
+        with open(path, 'rb') as f:
+            return f.read() != content
+    finally:
+        import shutil
+
+        shutil.rmtree(d, ignore_errors=True)
+        if shadowed:
+            install()
 
 
 def header_case(rep):
@@ -612,6 +680,7 @@ def bits_case(rep):
                         f.addField(t, u)
                         recs.append((t, u))
                     for reader in (f, fio.FieldsIO.fromFile(path)):
+                      try:
                         ok = reader.nFields == 3 and reader.times == [r[0] for r in recs]
                         for j, (t, u) in enumerate(recs):
                             t2, u2 = reader.readField(j)
@@ -621,6 +690,8 @@ def bits_case(rep):
                         if grid:
                             ok = ok and all(np.array_equal(a, b) for a, b in zip(reader.header['coords'], coords)) and reader.nVar == nVar
                         rep.side(f'bits/{np.dtype(dt).name}/nVar{nVar}/grid{grid}', ok)
+                      except Exception as e:
+                        rep.side(f'bits/{np.dtype(dt).name}/nVar{nVar}/grid{grid}', False, f'{type(e).__name__}: {e}')
                     rep.translator += 1
     finally:
         import shutil
@@ -645,11 +716,16 @@ def realcrash_case(rep):
 
 def replay(path):
     d = json.load(open(path))['replay']
-    if 'nVar' in d:
+    if d.get('task') == ['overwrite']:
+        bad = real_overwrite(d['ell'], max(1, min(d['nVar'], 50)))
+        print('existing file overwritten:', bad)
+    elif 'nVar' in d:
         res = real_crash_scenario(d['nVar'], d['k'], d['c'], d.get('idx'))
         bad = judge_real(res, d['k'], d.get('idx'))
         print(res)
         print('violated:', bad)
+    elif False:
+        pass
     else:
         print(d)
         bad = True
